@@ -45,7 +45,8 @@ def merge_sql(op, sc):
         # an always-true conjunct whose text literal holds a backslash: BSLIT is the four characters a, backslash, t, b
         cond = {k: v + " and length(" + BSLIT + ") = 4" for k, v in cond.items()}
     setn = f"{T}.n * 0 + {S}.n" if form == "setexpr" else f"{S}.n"
-    parts = [f"merge into {tname} using {using} on {T}.id = {S}.id"]
+    extra = f" and {T}.n = 0" if op.get("on") == "id_tn0" else ""
+    parts = [f"merge into {tname} using {using} on {T}.id = {S}.id{extra}"]
     for cl in op["cl"]:
         if cl["k"] == "upd":
             parts.append(f"when matched{cond[cl['c']]} then update set n = {setn}")
@@ -72,11 +73,12 @@ class C12(Prop):
 
     def consts(self, tier):
         return {"MaxT": 3, "MaxS": 2, "MaxCl": 3, "CondsUsed": {"none", "sn0", "tn0"},
-                "FormsUsed": {"plain", "tq", "subq", "tq_subq", "talias", "salias", "sq", "setexpr", "bslash"}}
+                "FormsUsed": {"plain", "tq", "subq", "tq_subq", "talias", "salias", "sq", "setexpr", "bslash"},
+                "OnUsed": {"id", "id_tn0"}, "TxUsed": {"none", "rollback", "commit"}}
 
     def model_checks(self, tier):
         big = tier == "thorough"
-        c = {"MaxT": 3 if big else 2, "MaxS": 2, "MaxCl": 2, "CondsUsed": {"none", "sn0", "tn0"}, "FormsUsed": {"plain"},
+        c = {"MaxT": 3 if big else 2, "MaxS": 2, "MaxCl": 2, "CondsUsed": {"none", "sn0", "tn0"}, "FormsUsed": {"plain"}, "OnUsed": {"id", "id_tn0"}, "TxUsed": {"none"},
              "Devs": set(), "Depth": 3, "MaxFails": 0, "SampleOneIn": 1}
         out = [dict(name="mc_ideal", consts=c, invariants=["StepInv"], constraint="Bound", view="ViewSt", timeout=1700)]
         for d, extra in (("C12.same_key_rows_all_hit", {}), ("C12.alias_or_qualified_source_unsupported", {"FormsUsed": {"talias"}}),
@@ -91,12 +93,15 @@ class C12(Prop):
         base = dict(self.consts(tier), Devs=set(), MaxFails=0, SampleOneIn=1)
         return [
             # (target, source, clause list) product: the transitions of depth 2 (setup; merge); TLC samples 1 in N of them
-            dict(name="edges", mode="edges", emit="EmitSample", sample=60000 if big else 4000, seed_offset=1,
-                 consts=dict(base, MaxT=2, MaxS=2, MaxCl=2, FormsUsed={"plain"}, Depth=3, SampleOneIn=3 if big else 40)),
-            dict(name="edges_cl3", mode="edges", emit="EmitSample", sample=30000 if big else 2500, seed_offset=2,
-                 consts=dict(base, MaxT=2, MaxS=1, MaxCl=3, FormsUsed={"plain"}, Depth=3, SampleOneIn=3 if big else 30)),
-            dict(name="edges_forms", mode="edges", sample=20000 if big else 2500,
-                 consts=dict(base, MaxT=2, MaxS=1, MaxCl=1, Depth=3)),
+            dict(name="edges", mode="edges", emit="EmitSample", sample=60000 if big else 3000, seed_offset=1,
+                 consts=dict(base, MaxT=2, MaxS=2, MaxCl=2, FormsUsed={"plain"}, TxUsed={"none"}, Depth=3, SampleOneIn=3 if big else 80)),
+            dict(name="edges_cl3", mode="edges", emit="EmitSample", sample=30000 if big else 1500, seed_offset=2,
+                 consts=dict(base, MaxT=2, MaxS=1, MaxCl=3, FormsUsed={"plain"}, OnUsed={"id"}, TxUsed={"none"}, Depth=3, SampleOneIn=3 if big else 30)),
+            # MERGE inside BEGIN .. ROLLBACK / COMMIT
+            dict(name="edges_tx", mode="edges", emit="EmitSample", sample=10000 if big else 1000, seed_offset=4,
+                 consts=dict(base, MaxT=2, MaxS=1, MaxCl=2, FormsUsed={"plain", "subq"}, OnUsed={"id"}, TxUsed={"rollback", "commit"}, Depth=3, SampleOneIn=3 if big else 20)),
+            dict(name="edges_forms", mode="edges", sample=20000 if big else 2000,
+                 consts=dict(base, MaxT=2, MaxS=1, MaxCl=1, OnUsed={"id"}, TxUsed={"none"}, Depth=3)),
         ]
 
     def nontrivial(self, ops):
@@ -131,9 +136,17 @@ class C12(Prop):
                         for i, n in rows:
                             raw.execute(f"insert into {fq} values ({'null' if i == 0 else i}, {n})")
                 else:
-                    cur = (conn_b if op["form"] in ("tq", "tq_subq") else conn).cursor(DictCursor)
-                    cur.execute(merge_sql(op, sc))
-                    rows = cur.fetchall()
+                    myconn = conn_b if op["form"] in ("tq", "tq_subq") else conn
+                    cur = myconn.cursor(DictCursor)
+                    tx = op.get("tx", "none")
+                    if tx != "none":
+                        cur.execute("begin")
+                    try:
+                        cur.execute(merge_sql(op, sc))
+                        rows = cur.fetchall()
+                    finally:
+                        if tx != "none":
+                            myconn.cursor().execute(tx)
                     if len(rows) != 1:
                         obs["res"] = "badstatus"
                     else:
